@@ -189,7 +189,7 @@ DEFOP(pop) {
         }
         return ptrs[lo + (uint64_t)sel % (ptrs.size() - lo)].first;
     };
-    auto pick_addable = [&](int64_t sel) -> std::string {
+    auto pick_addable_in = [&](const std::vector<std::pair<std::string, MVal *>> &ptrs, int64_t sel, const std::string &prefer) -> std::string {
         // a location "add" can target: existing member/element, new member of an object, index <= size or "-" of an array
         std::vector<std::string> c;
         for (auto &p : ptrs) {
@@ -202,8 +202,14 @@ DEFOP(pop) {
             }
         }
         for (auto &p : ptrs) c.push_back(p.first);
+        if (!prefer.empty()) {  // bias: locations below the given container
+            std::vector<std::string> c2;
+            for (auto &x : c) if (x.size() > prefer.size() + 1 && x.compare(0, prefer.size(), prefer) == 0 && x[prefer.size()] == '/') c2.push_back(x);
+            if (!c2.empty()) return c2[(uint64_t)sel % c2.size()];
+        }
         return c[(uint64_t)sel % c.size()];
     };
+    auto pick_addable = [&](int64_t sel) -> std::string { return pick_addable_in(ptrs, sel, ""); };
     MVal *op = mkobj();
     static const char *names[] = {"add", "remove", "replace", "test", "copy", "move"};
     put(op, "op", mv_str(names[kind]));
@@ -232,6 +238,25 @@ DEFOP(pop) {
         default: {
             std::string from = pick_existing(st.A(3), kind == 4 && (tweak % 7) == 0);
             path = pick_addable(st.A(2));
+            if (kind == 5 && (tweak % 3) == 0 && !from.empty()) {
+                // RFC 6902 evaluates a move's "path" in the document as it is AFTER "from" was removed: choose it there, so that
+                // locations are reached that exist only once the removal has shifted the array elements (and, with the bias,
+                // locations inside the container the value was taken from)
+                MVal *tmp = mv_clone_value(w.pending_ref);
+                tmp->keystate = K_NONE; tmp->key.clear();
+                MVal *rm = mkobj(); put(rm, "op", mv_str("remove")); put(rm, "path", mv_str(from));
+                std::string why2;
+                if (rfc6902_apply_op(&tmp, rm, why2) && tmp) {
+                    std::vector<std::pair<std::string, MVal *>> ptrs2;
+                    ptr_enumerate(tmp, ptrs2);
+                    size_t cut = from.rfind('/');
+                    path = pick_addable_in(ptrs2, st.A(2), (tweak % 2) ? from.substr(0, cut) : std::string());
+                    if (!ptr_resolve(w.pending_ref, path.substr(0, path.rfind('/') == std::string::npos ? 0 : path.rfind('/')))) w.stats.probes["patch_move_target_exists_only_after_removal"]++;
+                    w.stats.probes["patch_move_target_chosen_after_removal"]++;
+                }
+                mv_free(rm);
+                if (tmp) mv_free(tmp);
+            }
             if ((tweak % 13) == 0 && kind == 5) path = from + "/child";  // move into own child
             if ((tweak % 19) == 0 && kind == 5) {                         // move of a location onto itself; sometimes a location that differs from a member only in letter case
                 if ((tweak % 38) == 0) for (size_t ci = from.size(); ci-- > 0 && from[ci] != '/';) { if (from[ci] >= 'a' && from[ci] <= 'z') { from[ci] = (char)(from[ci] - 32); break; } if (from[ci] >= 'A' && from[ci] <= 'Z') { from[ci] = (char)(from[ci] + 32); break; } }
